@@ -1638,12 +1638,15 @@ class PCE500Emulator:
             self.memory.external_memory[-len(imem_bytes) :] = imem_bytes
 
         # Hardware invariant: USR bits 3/4 (TXR/TXE) come up set after reset.
-        try:
-            usr_addr = INTERNAL_MEMORY_START + IMEMRegisters.USR.value
-            usr_val = self.memory.read_byte(usr_addr) & 0xFF
-            self.memory.write_byte(usr_addr, usr_val | 0x18)
-        except Exception:
-            pass
+        # A bundle that carries the internal memory already holds the USR byte
+        # the machine had; only a bundle without it falls back to the reset value.
+        if not imem_bytes:
+            try:
+                usr_addr = INTERNAL_MEMORY_START + IMEMRegisters.USR.value
+                usr_val = self.memory.read_byte(usr_addr) & 0xFF
+                self.memory.write_byte(usr_addr, usr_val | 0x18)
+            except Exception:
+                pass
 
         if getattr(self.cpu, "backend", None) == "llama":
             llama_impl = getattr(self.cpu, "_impl", None)
